@@ -15,10 +15,11 @@ def _ident(x):
 _ident._ek_stub = True
 
 
-def _bt(prefix: str, max_kind: str):
+def _bt(prefix: str, max_kind: str, min_kind: str = "number"):
     base = Choice([(z3.Bool(f"{prefix}_is_int"), "int"), (z3.Not(z3.Bool(f"{prefix}_is_int")), "float")])
     mx = {"number": z3.Int(f"{prefix}_max"), "infinity": "Infinity"}[max_kind]
-    return SymObj(cls=BoundaryType, base_type=base, min=z3.Int(f"{prefix}_min"), max=mx,
+    mn = {"number": z3.Int(f"{prefix}_min"), "infinity": "NegativeInfinity"}[min_kind]
+    return SymObj(cls=BoundaryType, base_type=base, min=mn, max=mx,
                   min_inclusive=z3.Bool(f"{prefix}_min_incl"), max_inclusive=z3.Bool(f"{prefix}_max_incl"))
 
 
@@ -53,9 +54,9 @@ def boundary_eq_hash():
     job = KJob("C19")
     hash_globs = dict(BoundaryType.__hash__.__globals__)
     hash_globs["hash"] = _ident  # the hashed key itself is compared: equal keys => equal hashes
-    for ka in ("number", "infinity"):
-        for kb in ("number", "infinity"):
-            a, b = _bt("a", ka), _bt("b", kb)
+    for ka, kb, kmin in [(x, y, z) for x in ("number", "infinity") for y in ("number", "infinity") for z in ("number", "infinity")]:
+        if True:
+            a, b = _bt("a", ka, kmin), _bt("b", kb, kmin)
             ev = Ev(BoundaryType.__eq__)
             eq_ab = ev.truth(ev.call(a, b))
             eq_ba = Ev(BoundaryType.__eq__).truth(Ev(BoundaryType.__eq__).call(b, a))
@@ -69,7 +70,7 @@ def boundary_eq_hash():
                 bad = (x == y) != (y == x) or not (x == x) or ((x == y) and hash(x) != hash(y))
                 return bad, f"a==b {x == y}, b==a {y == x}, hashes {hash(x)} {hash(y)}"
 
-            job.prove(f"eq_implies_same_hash_key[max {ka}/{kb}]", [], z3.And(z3.Implies(eq_ab, same_key), eq_ab == eq_ba, eq_aa),
+            job.prove(f"eq_implies_same_hash_key[max {ka}/{kb}, min {kmin}]", [], z3.And(z3.Implies(eq_ab, same_key), eq_ab == eq_ba, eq_aa),
                       decode=decode, replay=replay,
-                      bound="all field values: base type int/float, integer minima/maxima (or Infinity), both inclusiveness flags")
+                      bound="all field values: base type int/float, integer minima (or NegativeInfinity) / maxima (or Infinity), both inclusiveness flags")
     return job.result()
